@@ -49,7 +49,7 @@ ASSUMPTIONS = [
     "no byte corruption is injected: the property promises rejection only for structurally "
     "defective member sets",
 ]
-PROBES = ["file_replaced_under_live_reader", "client_edits_returned_object",
+PROBES = ["package_object_dropped_before_streams_drained", "file_replaced_under_live_reader", "client_edits_returned_object",
           "two_packages_open_at_once", "other_client_opens_defective_package",
           "iteration_abandoned_early", "opened_by_filename", "payload_over_8k_read_in_chunks",
           "parts_compressed_differently_read_alternately", "one_byte_chunks_while_control_requeried",
@@ -131,7 +131,9 @@ def generate(seed, run, tier):
              # the file was replaced (only meaningful when opened by file name)
              "prior_at_path": rs.random() < 0.5,
              # clients edit the objects that queries handed to them
-             "edit_results": rs.random() < 0.5}
+             "edit_results": rs.random() < 0.5,
+             # the client keeps only the file objects it got and lets the package object go
+             "drop_package_before_drain": rs.random() < 0.25}
     steps = []
     nfiles = max(len(files), 1)
     w = {"debcontrol": 2, "scripts": 1, "md5sums": 2, "has": 3, "content": 4, "names": 1,
@@ -575,6 +577,13 @@ def execute(case):
             log.add(si, op, part, st.get("i"), st.get("sp"), st.get("n"))
             out.states.add(stable_hash([sorted((s["part"], s["pos"]) for s in streams),
                                         sorted(touched)]))
+        if world.get("drop_package_before_drain") and streams and not others:
+            import gc
+            deb = None
+            r = None
+            stale = []
+            gc.collect()
+            out.probe("package_object_dropped_before_streams_drained")
         # drain every stream: the rest must be exactly the rest
         for k, s in enumerate(streams):
             got = _call(s["f"].read)
@@ -588,6 +597,8 @@ def execute(case):
             except Exception:   # pylint: disable=broad-except
                 pass
         for d_ in [deb] + others + stale:
+            if d_ is None:
+                continue
             try:
                 d_.close()
             except Exception:   # pylint: disable=broad-except
